@@ -176,7 +176,10 @@ class Lexer:
         """Value of an escape's hex digits (int() alone also accepts signs, spaces and '_')."""
         if len(digits) < min_length or any(ch not in HEX_DIGITS for ch in digits):
             raise ValueError(digits)
-        return int(digits, 16)
+        value = int(digits, 16)
+        if value > 0x10FFFF:
+            raise ValueError(digits)  # not a code point
+        return value
 
     def _exponent_at(self, offset: int) -> bool:
         """Does an exponent part (e/E, optional sign, digit) start at this offset?"""
